@@ -415,7 +415,18 @@ func initExterns() {
 	})
 	// ---- sort
 	externTable["sort.Strings"] = ret(func(e *Engine, s *State, x ssa.CallInstruction, args []Value) Value {
-		s.havocFamily("elem(string)", e.nextVer())
+		// the slice is permuted in place: new[i] == old[perm(i)] for a permutation perm of [0,len)
+		sl := args[0]
+		old := s.heap.clone()
+		ver := e.nextVer()
+		s.havocFamily("elem(string)", ver)
+		e.symN++
+		bv := Sym(fmt.Sprintf("bv.sorti#%d", e.symN), SInt)
+		perm := App(fmt.Sprintf("sort.perm#%d", ver), SInt, bv)
+		newAt := s.sel("elem(string)", SStr, []*Term{sl[0], Add(sl[1], bv)})
+		oldAt := s.selectIn(old, "elem(string)", SStr, []*Term{sl[0], Add(sl[1], perm)})
+		rng := And(Le(Zero, bv), Lt(bv, sl[2]))
+		s.assume(Forall(bv, Implies(rng, And(Le(Zero, perm), Lt(perm, sl[2]), Eq(newAt, oldAt)))))
 		return nil
 	})
 	// ---- time (impure: recorded for DET)
@@ -483,6 +494,8 @@ func initExterns() {
 			return append(Value{Zero}, e.errorValue(s, Str("template parse error"))...)
 		}
 		errv, fails := e.maybeError(s, "tmplparse")
+		s.assume(Eq(fails, Not(App("validtemplate", SBool, txt))))
+		s.sto("template.text", []*Term{args[0][0]}, txt)
 		return Value{Ite(fails, Zero, args[0][0]), errv[0], errv[1]}
 	})
 	externTable["html/template.Must"] = ret(func(e *Engine, s *State, x ssa.CallInstruction, args []Value) Value {
@@ -564,8 +577,15 @@ func initExterns() {
 		return func(e *Engine, s *State, x ssa.CallInstruction, fn *ssa.Function, args []Value) ([]*State, bool) {
 			// receiver is &ctx.BaseParserRuleContext: recover the context type from the SSA operand
 			var cn string
-			if fa, ok := x.Common().Args[0].(*ssa.FieldAddr); ok {
-				cn = grammarCtxName(fa.X.Type())
+			for v := x.Common().Args[0]; ; {
+				fa, ok := v.(*ssa.FieldAddr)
+				if !ok {
+					break
+				}
+				if n := grammarCtxName(fa.X.Type()); n != "" && e.tree.ctxs[n] != nil {
+					cn = n
+				}
+				v = fa.X
 			}
 			if cn == "" || e.tree.ctxs[cn] == nil {
 				e.assumed["antlr.BaseParserRuleContext."+name+" on a context of unknown rule: result unconstrained"] = true
@@ -633,6 +653,12 @@ func initExterns() {
 	}
 	invokeTable["("+antlrPkg+".Token).GetText"] = func(e *Engine, s *State, x ssa.CallInstruction, recv Value, args []Value) {
 		e.bindResult(s, x, Value{App("tok.text", SStr, recv[1])})
+	}
+	invokeTable["("+antlrPkg+".Token).GetTokenSource"] = func(e *Engine, s *State, x ssa.CallInstruction, recv Value, args []Value) {
+		src := App("tok.source", SInt, recv[1])
+		s.assume(Ne(src, Zero))
+		e.assumed["tokens produced by the generated lexer carry a non-nil token source"] = true
+		e.bindResult(s, x, Value{e.typeID(e.ptrTo(grammarPkg, "PacketDslLexer")), src})
 	}
 	invokeTable["("+antlrPkg+".TokenSource).GetCharPositionInLine"] = func(e *Engine, s *State, x ssa.CallInstruction, recv Value, args []Value) {
 		e.bindResult(s, x, Value{App("tok.charpos", SInt, recv[1])})
